@@ -1258,6 +1258,21 @@ def dd2sec(dd):
 def dec2hp_v(dec):
     minute, second = divmod(abs(dec) * 3600, 60)
     degree, minute = divmod(minute, 60)
+    # as in dec2hp: seconds that round to 60 are carried into the minutes,
+    # and 60 minutes into the degrees (otherwise 1.0833333333333333 gives the
+    # invalid HP value 1.046)
+    # (one decimal less from 512 degrees up, where a double no longer
+    # resolves the 13th decimal of an HP value)
+    big = abs(dec) >= 512
+    second8 = second.round(8)
+    second = second.round(9)
+    second[big] = second8[big]
+    carry = second == 60
+    second[carry] = 0
+    minute[carry] += 1
+    carry = minute == 60
+    minute[carry] = 0
+    degree[carry] += 1
     hp = degree + (minute / 100) + (second / 10000)
     hp[dec <= 0] = -hp[dec <= 0]
     return hp
